@@ -22,6 +22,8 @@
 #include <stdexcept>
 #include <string>
 #include <vector>
+#define VERIF_PAINT_NEW 1
+#include "../painted.h"
 
 using tulz::Path;
 using tulz::DirectoryVisitor;
@@ -205,6 +207,7 @@ int main() {
     std::ios::sync_with_stdio(false);
     std::string line;
     while (std::getline(std::cin, line)) {
+        verif::paintLine(line);   // painted `new` (harness/painted.h)
         std::istringstream is(line);
         std::vector<std::string> t;
         std::string w;
